@@ -63,14 +63,14 @@ for fn in tree.body:
         if not (isinstance(call, ast.Call) and isinstance(call.func, ast.Attribute)):
             continue
         kind = call.func.attr
-        if kind not in ("mc_leg", "rec_leg", "trace_leg", "rp_leg", "rp_rec_leg", "table_leg"):
+        if kind not in ("mc_leg", "rec_leg", "trace_leg", "rp_leg", "rp_rec_leg", "rp_table_leg", "table_leg"):
             continue
         name = first_str(call.args[0]) if call.args else "?"
         kw = {k.arg: k.value for k in call.keywords}
         if kind == "mc_leg":
             legs.append((call.lineno, "MC `%s` (%s)" % (name, first_str(call.args[1]))))
             continue
-        if kind in ("rp_leg", "rp_rec_leg"):
+        if kind in ("rp_leg", "rp_rec_leg", "rp_table_leg"):
             spec = first_str(call.args[1])
             tag = "RP"
         elif kind == "table_leg":
